@@ -9,7 +9,7 @@ from props import _lay
 LEVEL = "proof"
 MODULE = "Phil.Props.C13"
 LEVEL_TEXT = "Lean theorems about the include model over an abstract file system and import table: a file already on the include stack is refused with the cycle error naming the chain (cycle_refused, cycle_detected, also through imported scopes), expansion is total / never out of fuel under ranked imports (expand_total, expand_never_out_of_fuel; necessity witness), 'include file' splices the expansion of the named file resolved against the includer's directory (include_inlines), 'include scope' splices the imported scope after its own includes (include_scope_inlines, _subpath, _expands_first, _refdir). Tied to /repo by a correspondence run on a real scratch directory tree (current directory elsewhere; absent targets; look-alike files under the current directory, the root's and the includer's includer's directory) and a synthetic importable module; the oracle compares parse(file, process_includes) with the parse of the textually inlined document over an explicit file table."
-LEVEL_NOTE = 'os.path and open() are CPython/OS (no symlinks); the Python import is a parameter. Parent links / primary ids of included objects are not part of the compared tree (known edge: variables across an include boundary, DESIGN §7).'
+LEVEL_NOTE = "os.path and open() are CPython/OS (no symlinks); the Python import is a parameter. Finding D71: objects spliced by 'include file' keep the parents and ids of the separately parsed file (full_path inside a scope, variables across the boundary); the oracle's full_path clause is tagged with it. D72 (include scope sub-path went through get()) fixed in /repo."
 TECHNIQUE = 'Lean 4 theorems on the include-stack model + differential correspondence on real files + textual-inlining oracle'
 RULE = ("all directed include graphs over 3 files with <= 2 includes each (chains, diamonds, self-loops, longer cycles, cycles not "
         "through the root) and random graphs over 4 files, includes at top level or inside scopes, files in different "
